@@ -174,6 +174,7 @@ func cmdCheck(args []string) int {
 			"sort.SliceStable": modPath + "/internal/vfmodel.SortSlice",
 			"errors.Is":        modPath + "/internal/vfmodel.ErrorsIs",
 			"errors.As":        modPath + "/internal/vfmodel.ErrorsAs",
+			"crypto/elliptic.P256": modPath + "/internal/vfmodel.P256",
 			"crypto/sha256.New":    modPath + "/internal/vfmodel.NewSha256",
 			"crypto/sha256.Sum256": modPath + "/internal/vfmodel.Sum256",
 			"github.com/decred/dcrd/crypto/ripemd160.New": modPath + "/internal/vfmodel.NewRipemd160",
